@@ -78,6 +78,25 @@ impl SubCheck for CodecRoundTrip {
         let mut out = Outcome::new();
         let Some(address) = to_address(&c.addr) else { return out };
         out.label(format!("addr:{}", c.addr.kind()));
+        if let Addr::Name(n, _) = &c.addr {
+            if n.is_empty() {
+                // the VMess-style encoder's own refusal of the empty name (nothing may be written)
+                out.nontrivial(format!("empty-name|{}", c.addr.port() % 7));
+                match catch(|| {
+                    let mut buf = BytesMut::new();
+                    let w = vaddr::write_address_port(&address, &mut buf);
+                    (w.is_ok(), buf.len())
+                }) {
+                    Err(_) => {} // a panic is a refusal here; C07 reports it
+                    Ok((ok, n)) => {
+                        if ok || n > 0 {
+                            out.fail("codec-roundtrip/vmess-style/empty-name-not-refused", format!("write_address_port accepted an empty name (ok={}, {} bytes written)", ok, n));
+                        }
+                    }
+                }
+                return out;
+            }
+        }
         let edge = match &c.addr {
             Addr::Name(n, _) => matches!(n.len(), 1 | 2 | 254 | 255) || n.iter().any(|b| *b >= 0x80),
             Addr::V6(..) => true,
@@ -260,6 +279,15 @@ impl SubCheck for AcceptedTransmission {
         };
         out.label(format!("accepted len:{}", len_class));
         let want = from_address(&accepted);
+        if let Addr::Name(n, _) = &want {
+            if n.is_empty() || n.len() > 255 {
+                out.fail(
+                    "accepted-address-transmission/local-handshake-accepts-unrepresentable-name",
+                    format!("the local handshake accepted a target name of {} bytes ({:?}); neither address encoding can represent it, it must be refused before anything is sent", n.len(), c.source),
+                );
+                return out;
+            }
+        }
         if !matches!(c.source, Source::Socks5Ip(..)) {
             out.nontrivial(format!("accepted|{:?}|{}|{}", std::mem::discriminant(&c.source), len_class, c.seed % 5));
         }
@@ -348,5 +376,11 @@ pub fn run(ctx: &mut PropCtx) {
     ctx.assumptions = vec!["a panic in a local decoder counts as a refusal here and is reported by C07".into()];
     let t = ctx.tier;
     rt::run_sub(ctx, &CodecRoundTrip, t.pick(300_000, 10_000_000));
+    rt::run_list(
+        ctx,
+        &CodecRoundTrip,
+        "empty-name-refusal",
+        [0u16, 1, 53, 80, 443, 8080, 65535].iter().map(|p| RtCase { addr: Addr::Name(vec![], *p), tail: vec![1, 2, 3] }).collect(),
+    );
     rt::run_sub(ctx, &AcceptedTransmission, t.pick(60_000, 1_500_000));
 }
